@@ -3507,14 +3507,14 @@ static srtp_err_status_t update_template_streams(srtp_t session,
     /* initialize new template stream  */
     status = srtp_stream_init(new_stream_template, policy);
     if (status) {
-        srtp_crypto_free(new_stream_template);
+        srtp_stream_dealloc(new_stream_template, NULL);
         return status;
     }
 
     /* allocate new stream list */
     status = srtp_stream_list_alloc(&new_stream_list);
     if (status) {
-        srtp_crypto_free(new_stream_template);
+        srtp_stream_dealloc(new_stream_template, NULL);
         return status;
     }
 
